@@ -307,7 +307,7 @@ func parseCSV(b []byte, delim rune) ([][]string, error) {
 	return r.ReadAll()
 }
 
-var delims = []rune{0, '|', ';', '\t'}
+var delims = []rune{0, '|', ';', '\t', '§'}
 
 func delimName(d rune) string {
 	if d == 0 {
@@ -535,7 +535,7 @@ func cliCase(t *Table, cs CaseSpec, rng *rand.Rand) (events []interface{}) {
 	events = append(events, ev)
 	// the same content through another delimiter (given on the command line) on another branch
 	{
-		ds := []rune{'\t', '|', ';', ' '}
+		ds := []rune{'\t', '|', ';', ' ', '§'} // (a delimiter may be any character, also one of several bytes)
 		d := ds[rng.Intn(len(ds))]
 		fp2, _ := r.WriteFile("data.alt", tbl.CSV(all, d))
 		args := []string{"commit", "alt", fp2, "alt", "-n", "3", "--delimiter", string(d)}
